@@ -352,6 +352,8 @@ class ObjRun:
                     self.op_inplace(target, op)
                 elif k == "invalid_cond":
                     self.op_invalid_cond(target)
+                elif k == "dim_agnostic":
+                    self.op_dim_agnostic(op)
             except core.SimCrash:
                 ctx.count("ops_crashed_by_fault")
             except Exception:
@@ -512,6 +514,50 @@ class ObjRun:
             if o.root == "J" and not any(s_.get("special") or s_.get("alt") for s_ in o.path) and not close(w, self.total, 1e-9):
                 ctx.violate("C01", "wrong_value", {"engine": "objhist", "obj_class": type(obj).__name__,
                                                    "how": "kw", "graph": self.sc["graph"]["graph"]}, got=w, expected=self.total)
+
+    def op_dim_agnostic(self, op):
+        """A conditional distribution whose dimension is not known until it is conditioned (no geometry, parameters
+        left open), conditioned several times with parameters of DIFFERENT length and used in between: every copy must
+        behave like the copy of a fresh original that was conditioned only once."""
+        from cuqi.distribution import Normal, Laplace
+        ctx = self.ctx
+        r = np.random.RandomState(op["pick"])
+        sizes = [int(v) for v in r.permutation([1, 3, 4, 5])[:3]]
+        fam = op["fam"]
+
+        def make():
+            if fam == "normal":
+                return Normal(mean=None, std=None, name="zq")
+            return Laplace(location=None, scale=None, name="zq")
+
+        def cond(dist, k):
+            mu = np.linspace(-1, 1, k) if k > 1 else 0.3
+            return dist(mean=mu, std=0.7) if fam == "normal" else dist(location=mu, scale=0.6)
+
+        def sig(c, k):
+            x = np.linspace(0, 1, k) if k > 1 else np.array([0.2])
+            return [("dim", _try(lambda: float(c.dim))), ("logd", _try(lambda: _f(c.logd(x)))),
+                    ("sample", _try(lambda: _f(c.sample(1, rng=np.random.RandomState(3))))),
+                    ("orig_dim", _try(lambda: None if orig.dim is None else float(orig.dim)))]
+        orig = make()
+        ctx.fault("dimension_inferred_on_copies")
+        for k in sizes:
+            c = cond(orig, k)
+            got = sig(c, k)
+            saved, orig_ = orig, None
+            fresh_orig = make()
+            orig = fresh_orig                     # sig() reads `orig`: evaluate the twin against its own fresh original
+            want = sig(cond(fresh_orig, k), k)
+            orig = saved
+            ctx.count("decisions")
+            bad = sig_equal(got, want)
+            if bad is not None:
+                ctx.violate("C11", "signature_differs_from_twin",
+                            {"engine": "objhist", "obj_class": type(c).__name__, "key": "dim_agnostic:" + bad, "root": "dens",
+                             "after": "dim_agnostic", "derived": True}, sizes=sizes, size=k, got=_short(dict(got).get(bad)),
+                            twin=_short(dict(want).get(bad)))
+                return
+        ctx.hit("dimension_agnostic_conditional")
 
     def op_invalid_cond(self, o):
         """a conditioning call with an unknown keyword on a distribution / likelihood (or a copy of one) is refused -
@@ -774,8 +820,10 @@ def gen_case(r, tier):
                                                               "partial_then_data", "positional"])})
         elif x < 0.965:
             ops.append({"op": "inplace", "on": on})
-        elif x < 0.98:
+        elif x < 0.977:
             ops.append({"op": "invalid_cond", "on": on})
+        elif x < 0.985:
+            ops.append({"op": "dim_agnostic", "pick": r.randrange(10 ** 6), "fam": r.choice(["normal", "laplace"])})
         else:
             ops.append({"op": "fault", "tag": r.choice(TAGS[g]), "k": r.randint(0, 6), "kind": r.choice(["raise", "nan"])})
     return {"scenario": sc, "ops": ops}
